@@ -52,18 +52,18 @@ struct Scenario {
 };
 
 struct Model {   // exact counts; plain arrays (a state is rebuilt ~10^7 times, no allocation here)
-  uint64_t truth[UNIVERSE]; uint64_t total; int min_lg;   // min_lg: smallest lg_max_map_size that contributed
-  Model(): total(0), min_lg(99) { for (int i = 0; i < UNIVERSE; ++i) truth[i] = 0; }
+  uint64_t truth[UNIVERSE]; uint64_t total; int min_lg; int lg_max;   // min_lg: smallest lg_max_map_size that contributed; lg_max: the configured size of this object
+  Model(): total(0), min_lg(99), lg_max(0) { for (int i = 0; i < UNIVERSE; ++i) truth[i] = 0; }
   void add(int item, uint64_t w) { truth[item] += w; total += w; }
-  void absorb(const Model& o) { for (int i = 0; i < UNIVERSE; ++i) truth[i] += o.truth[i]; total += o.total; min_lg = std::min(min_lg, o.min_lg); }
+  void absorb(const Model& o) { for (int i = 0; i < UNIVERSE; ++i) truth[i] += o.truth[i]; total += o.total; min_lg = std::min(min_lg, o.min_lg); }   // lg_max stays: a merge does not reconfigure its target
   uint64_t of(int item) const { return truth[item]; }
 };
 
 template<class T, class H>
 struct FiSys {
   typedef frequent_items_sketch<T, uint64_t, H> Sk;
-  struct State { std::unique_ptr<Sk> sk; Model m; bool terminal; const char* last; const char* note; State(): terminal(false), last("init"), note("") {} };
-  enum Kind { UPD, UPD_RV, RT_BYTES, RT_STREAM, MERGE_L, MERGE_R, INTO_L, INTO_R };
+  struct State { std::unique_ptr<Sk> sk; Model m; bool terminal, leaf; const char* last; const char* note; State(): terminal(false), leaf(false), last("init"), note("") {} };
+  enum Kind { UPD, UPD_RV, RT_BYTES, RT_STREAM, MERGE_L, MERGE_R, INTO_L, INTO_R, SELF };
   struct Op { Kind kind; int item; uint64_t w; int operand; std::string name, cls; };
 
   Scenario sc; std::vector<T> uni; std::vector<Op> ops;
@@ -75,7 +75,8 @@ struct FiSys {
       o.name = "upd(" + str(o.item) + "," + str(o.w) + ")"; o.cls = o.w == 0 ? "update0" : o.kind == UPD_RV ? "update-rvalue" : "update";
       ops.push_back(o);
     }
-    { Op o; o.item = -1; o.w = 0; o.operand = -1; o.kind = RT_BYTES; o.name = o.cls = "rt-bytes"; ops.push_back(o); o.kind = RT_STREAM; o.name = o.cls = "rt-stream"; ops.push_back(o); }
+    { Op o; o.item = -1; o.w = 0; o.operand = -1; o.kind = RT_BYTES; o.name = o.cls = "rt-bytes"; ops.push_back(o); o.kind = RT_STREAM; o.name = o.cls = "rt-stream"; ops.push_back(o);
+      o.kind = SELF; o.name = o.cls = "merge(self)"; ops.push_back(o); }   // a.merge(a): every weight doubles, exactly as merging a copy
     const char* dn[] = {"mergeL", "mergeR", "intoL", "intoR"};
     for (size_t j = 0; j < sc.menu.size(); ++j) for (int d = 0; d < 4; ++d) {
       if (!(sc.dirs >> d & 1)) continue;
@@ -86,7 +87,7 @@ struct FiSys {
 
   static int clamp_lg(int lg) { return std::max(lg, 3); }
   void build(const Recipe& r, std::unique_ptr<Sk>& sk, Model& m) const {
-    sk.reset(new Sk((uint8_t)r.lg_max, (uint8_t)r.lg_start)); m = Model(); m.min_lg = clamp_lg(r.lg_max);
+    sk.reset(new Sk((uint8_t)r.lg_max, (uint8_t)r.lg_start)); m = Model(); m.min_lg = clamp_lg(r.lg_max); m.lg_max = clamp_lg(r.lg_max);
     for (size_t i = 0; i < r.ups.size(); ++i) { sk->update(uni[r.ups[i].first], r.ups[i].second); m.add(r.ups[i].first, r.ups[i].second); }
   }
 
@@ -96,7 +97,7 @@ struct FiSys {
 
   State* make() {
     State* s = new State();
-    s->sk.reset(new Sk((uint8_t)sc.lg_max, (uint8_t)sc.lg_start)); s->m.min_lg = clamp_lg(sc.lg_max);
+    s->sk.reset(new Sk((uint8_t)sc.lg_max, (uint8_t)sc.lg_start)); s->m.min_lg = clamp_lg(sc.lg_max); s->m.lg_max = clamp_lg(sc.lg_max);
     for (size_t i = 0; i < sc.prefix.size(); ++i) { s->sk->update(uni[sc.prefix[i].first], sc.prefix[i].second); s->m.add(sc.prefix[i].first, sc.prefix[i].second); }
     s->terminal = broken(*s);
     return s;
@@ -117,7 +118,7 @@ struct FiSys {
   static const char* no_counters(const Sk& src) { return (src.get_num_active_items() == 0 && src.get_total_weight() > 0) ? "[source-has-weight-but-no-counters]" : ""; }
 
   bool apply(State& s, size_t opi, Ctx*) {
-    if (s.terminal) return false;
+    if (s.terminal || s.leaf) return false;
     const Op& o = ops[opi];
     const char* note = "";
     switch (o.kind) {
@@ -136,6 +137,7 @@ struct FiSys {
         s.sk.reset(new Sk(Sk::deserialize(ss)));
         break;
       }
+      case SELF: { note = no_counters(*s.sk); const Sk& self = *s.sk; s.sk->merge(self); Model copy = s.m; s.m.absorb(copy); s.last = o.cls.c_str(); s.note = note; s.leaf = true; s.terminal = broken(s); return true; }   // checked, not expanded (doubled weights would only multiply the state space)
       case MERGE_L: { std::unique_ptr<Sk> b; Model bm; build(sc.menu[o.operand], b, bm); note = no_counters(*b); const Sk& cb = *b; s.sk->merge(cb); s.m.absorb(bm); break; }
       case MERGE_R: { std::unique_ptr<Sk> b; Model bm; build(sc.menu[o.operand], b, bm); note = no_counters(*b); s.sk->merge(std::move(*b)); s.m.absorb(bm); break; }
       case INTO_L: { std::unique_ptr<Sk> b; Model bm; build(sc.menu[o.operand], b, bm); note = no_counters(*s.sk); const Sk& ca = *s.sk; b->merge(ca); bm.absorb(s.m); s.sk.swap(b); s.m = bm; break; }
@@ -161,7 +163,7 @@ struct FiSys {
     }
     c += "]M";
     for (int i = 0; i < UNIVERSE; ++i) { if (s.m.truth[i]) num(c, s.m.truth[i]); c += ','; }
-    c += 'W'; num(c, s.m.total); c += 'g'; num(c, (uint64_t)s.m.min_lg);
+    c += 'W'; num(c, s.m.total); c += 'g'; num(c, (uint64_t)s.m.min_lg); c += 'G'; num(c, (uint64_t)s.m.lg_max);
     return c;
   }
 
@@ -219,7 +221,9 @@ struct FiSys {
     std::sort(thr.begin(), thr.end()); thr.erase(std::unique(thr.begin(), thr.end()), thr.end());
     // size
     const uint32_t nact = k.get_num_active_items();
-    const int lgmax = (int)k.map.lg_max_size_;
+    // the configured maximum map size of this object (it must survive round trips and merges), not whatever the sketch holds now
+    const int lgmax = m.lg_max;
+    if ((int)k.map.lg_max_size_ != lgmax) c.fail("lg_max_map_size-as-configured" + at, "the sketch holds lg_max_map_size " + str((int)k.map.lg_max_size_) + ", configured " + str(lgmax));
     if (!(nact <= (3u << lgmax) / 4)) c.fail("num_active<=capacity" + at, "num_active " + str(nact) + " lg_max " + str(lgmax));
     // published error
     if (!(k.get_epsilon() == 3.5 / (double)(1u << lgmax) && Sk::get_epsilon((uint8_t)lgmax) == k.get_epsilon())) c.fail("epsilon==3.5/2^lg_max" + at, "get_epsilon " + str(k.get_epsilon()));
